@@ -57,8 +57,8 @@ PROPS = {
         'assumptions': [],
     },
     'C10': {
-        'families': [('c10', 40, 400)],
-        'rule': 'generated valid CARv1 x: WrapV1 (both codecs, StoreIdentityCIDs on/off) output compared byte-for-byte; ExtractV1File over {the wrapped file, a hand-laid index-less CARv2 with data padding, a writer-produced CARv2 with data and index padding} x destination {absent, larger pre-existing file, the same path (in place)} on real files; ReplaceRootsInFile with replacement root lists of equal and different encoded size on CARv1 and CARv2 files, file bytes before/after; distinct = distinct script text',
+        'families': [('c10', 40, 400), ('c19', 8, 40)],
+        'rule': 'generated valid CARv1 x: WrapV1 (both codecs, StoreIdentityCIDs on/off) output compared byte-for-byte; ExtractV1File over {the wrapped file, a hand-laid index-less CARv2 with data padding, a writer-produced CARv2 with data and index padding} x destination {absent, larger pre-existing file, the same path (in place)} on real files; ReplaceRootsInFile with replacement root lists of equal and different encoded size on CARv1 and CARv2 files, file bytes before/after; distinct = distinct script text; plus the CLI family of C19 at a small count (car index / car index --version 1 are the command-line forms of wrap and extract, to a file and to standard output)',
         'trusted': ['io.CopyN / copy_file_range as a chunked read-then-write loop (any chunking is covered by the theorem)'],
         'assumptions': [],
     },
